@@ -15,6 +15,9 @@ from mdsa.astutil import call_attr, call_recv, kwarg, local_calls, norm, store_t
 from mdsa.cfg import walk_local
 from mdsa.loader import AnalysisError
 
+from mdsa import match as M
+
+from .sem import F
 from .common import Ctx, local_defs, node_of
 
 R = "ih5.record.IH5Record"
@@ -65,14 +68,69 @@ def r1_refusals(P, rep, ctx):
     eo = [n.idx for n in g.nodes if any(call_attr(c) == "_expect_open" for c in g.calls(n.idx))]
     rep.check(bool(eo) and all(g.every_path_passes(eo, w) for w in withs), "C05.R1", fi.qual, "merge requires an open record", fi.loc(), construct="_expect_open before target creation", message="merge_files does not check _expect_open before creating the target")
     fi = P.func(f"{MF}.merge_files")
-    g = ctx.cfg(fi)
-    sup = [n.idx for n in g.nodes if any(call_attr(c) == "merge_files" and isinstance(c.func.value, ast.Call) and norm(c.func.value.func) == "super" for c in g.calls(n.idx))]
-    tests = [t.idx for t in g.nodes if t.kind == "test" and norm(t.exprs[0]) == "any(map(is_stub, self.ih5_meta))"]
-    ok = bool(sup) and bool(tests) and all(g.exit not in g.reach([b for b, l in g.succ[t] if l == "T"]) and not (set(sup) & g.reach([b for b, l in g.succ[t] if l == "T"])) for t in tests) and all(g.every_path_passes(tests, s) for s in sup)
-    rep.check(ok, "C05.R1", fi.qual, "a file set containing a stub is refused before the merge starts", fi.loc(), construct="stub refusal before super().merge_files", message="IH5MFRecord.merge_files can merge a record that contains a stub (refusal missing or after super().merge_files)")
-    st = fi.nested.get("is_stub")
-    t = norm(st.node) if st else ""
-    rep.check("ext = IH5UBExtManifest.get(x)" in t and "return ext is not None and ext.is_stub_container" in t, "C05.R1", fi.qual, "stub test reads the manifest extension flag of each user block", fi.loc(), construct="is_stub", message="is_stub does not test `ext is not None and ext.is_stub_container`")
+    f = F(ctx, fi)
+    sup = f.calls("super().merge_files(___)")
+    ok, why = stub_refusal(P, ctx, f, sup)
+    rep.check(ok, "C05.R1", fi.qual, "a file set containing a stub is refused before the merge starts", fi.loc(), construct="stub refusal before super().merge_files", message=f"IH5MFRecord.merge_files can merge a record that contains a stub (refusal missing or after super().merge_files{': ' + why if why else ''})")
+
+
+def _is_stub_pred(P, ctx, f: "F", e: ast.AST, arg: str = None) -> bool:
+    """e is a predicate `IH5UBExtManifest.get(x) is not None and IH5UBExtManifest.get(x).is_stub_container` (as lambda,
+    nested function, or known helper name)"""
+    if isinstance(e, ast.Lambda):
+        a = e.args.args[0].arg if e.args.args else None
+        return a is not None and M.equivalent(e.body, f"IH5UBExtManifest.get({a}) is not None and IH5UBExtManifest.get({a}).is_stub_container")
+    if isinstance(e, ast.Name):
+        nf = f.fi.nested.get(e.id) or f.fi.module.functions.get(e.id)
+        if nf is None or not nf.params:
+            return False
+        nfv = F(ctx, nf)
+        a = nf.params[0]
+        rets = [v for _, v in nfv.returns() if v is not None]
+        return len(rets) == 1 and M.equivalent(nfv.xe(rets[0]), f"IH5UBExtManifest.get({a}) is not None and IH5UBExtManifest.get({a}).is_stub_container")
+    return False
+
+
+def stub_refusal(P, ctx, f: "F", effects):
+    """Every path to `effects` passed a refusal of file sets that contain a stub container (any / loop form)."""
+    g = f.g
+    if not effects:
+        return False, "effect not found"
+    # form (a): any(map(pred, self.ih5_meta)) / any(pred(x) for x in self.ih5_meta)
+    edges = []
+    for n in g.nodes:
+        if n.kind != "test":
+            continue
+        e = f.xe(n.exprs[0])
+        b = M.match("any(map(__p, self.ih5_meta))", e)
+        if b is not None and _is_stub_pred(P, ctx, f, b["__p"]):
+            edges.append((n.idx, "T"))
+            continue
+        if isinstance(e, ast.Call) and norm(e.func) == "any" and len(e.args) == 1 and isinstance(e.args[0], ast.GeneratorExp):
+            ge = e.args[0]
+            if len(ge.generators) == 1 and norm(ge.generators[0].iter) == "self.ih5_meta" and not ge.generators[0].ifs and isinstance(ge.generators[0].target, ast.Name):
+                v = ge.generators[0].target.id
+                el = ge.elt
+                if M.equivalent(el, f"IH5UBExtManifest.get({v}) is not None and IH5UBExtManifest.get({v}).is_stub_container") or (isinstance(el, ast.Call) and len(el.args) == 1 and norm(el.args[0]) == v and _is_stub_pred(P, ctx, f, el.func)):
+                    edges.append((n.idx, "T"))
+    if edges:
+        ok = f.refuses(edges) and not f.reaches(edges, effects) and f.all_hit_before(effects, nodes=f.test_nodes(edges))
+        return ok, "" if ok else "the any(...) test does not refuse before the effect"
+    # form (b): for u in self.ih5_meta: if <stub(u)>: raise
+    for n in g.nodes:
+        if n.kind == "for" and f.x(n.stmt.iter) == "self.ih5_meta" and isinstance(n.stmt.target, ast.Name):
+            v = n.stmt.target.id
+            has = f.tests(f"IH5UBExtManifest.get({v}) is not None")
+            flag = f.tests(f"IH5UBExtManifest.get({v}).is_stub_container")
+            if not has or not flag:
+                continue
+            r = f.refuses_when([[f"IH5UBExtManifest.get({v}) is not None"], [f"IH5UBExtManifest.get({v}).is_stub_container"]])
+            # inside the loop: taking both true edges never comes back to the loop head or to the exit
+            both_refuse = f.refuses(flag) or not f.reaches(flag, [n.idx, g.exit])
+            skipping = any(isinstance(x, (ast.Break, ast.Continue)) for b_ in n.stmt.body for x in ast.walk(b_))
+            ok = both_refuse and not skipping and f.all_hit_before(effects, nodes=[n.idx]) and not any(e in g.reach([b for b, l in g.succ[n.idx] if l == "iter"], avoid=[n.idx]) for e in effects)
+            return ok, "" if ok else "the loop over self.ih5_meta does not refuse every stub before the effect"
+    return False, "no test over self.ih5_meta found"
 
 
 SELF_STATE = ("self._ublocks", "self.__files__", "self._manifest", "self._files", "self._closed", "self._allow_patching")
@@ -159,54 +217,119 @@ def r3_identity(P, rep, ctx):
     rep.check(rets == [norm(saves[0].args[0])], "C05.R3", fi.qual, "merge_files returns the merged container path", fi.loc(), construct="return", message=f"merge_files returns {rets}")
     hook = [n.idx for n in g.nodes if any(call_attr(c) == "_fixes_after_merge" for c in g.calls(n.idx))]
     rep.check(bool(hook) and all(g.every_path_passes(hook, s) for s in sv if s is not None), "C05.R3", fi.qual, "subclass hook runs before the block is saved", fi.loc(), construct="_fixes_after_merge before save", message="_fixes_after_merge is not called before the merged user block is saved")
-    mf = P.func(f"{MF}._fixes_after_merge")
-    t = norm(mf.node)
-    rep.check("self.manifest.save(self._manifest_filepath(file))" in t and "if self._manifest is not None" in t, "C05.R3", mf.qual, "the source's manifest is carried over to the merged container", mf.loc(), construct="manifest carried over", message="IH5MFRecord._fixes_after_merge does not save the original manifest next to the merged container")
+    mf = F(ctx, P.func(f"{MF}._fixes_after_merge"))
+    fp = mf.fi.params[1]
+    saves2 = mf.calls(f"self.manifest.save(self._manifest_filepath({fp}))", f"self._manifest.save(self._manifest_filepath({fp}))")
+    none = mf.tests("self._manifest is None", "not self._manifest")
+    rep.check(bool(saves2) and bool(none) and mf.hit_before(mf.g.exit, nodes=saves2, edges=none), "C05.R3", mf.fi.qual, "the source's manifest is carried over to the merged container", mf.fi.loc(), construct="manifest carried over", message="IH5MFRecord._fixes_after_merge does not save the original manifest next to the merged container")
 
 
 def r4_copy_coverage(P, rep, ctx):
     fi = P.func(f"{R}.merge_files")
-    defs = local_defs(fi)
-    rep.check([norm(v) for k, v in defs.get("source_node", []) if v is not None] == ["self['/']"] and [norm(v) for k, v in defs.get("target_node", []) if v is not None] == ["ds['/']"], "C05.R4", fi.qual,
-              "source root is the overlay view of self, target root the fresh record", fi.loc(), construct="source/target roots", message="merge_files does not copy from self['/'] (overlay view) into ds['/']")
-    fors = [x for x in walk_local(fi.node) if isinstance(x, ast.For)]
-    attr_loop = [f for f in fors if norm(f.iter) == "source_node.attrs.items()" and any(norm(b) == f"target_node.attrs[{norm(f.target.elts[0])}] = {norm(f.target.elts[1])}" for b in f.body if isinstance(f.target, ast.Tuple))]
+    f = F(ctx, fi)
+    g = f.g
+    withs = [n for n in g.nodes if n.kind == "with"]
+    fresh = {norm(i.optional_vars) for w in withs for i in w.stmt.items if i.optional_vars is not None and isinstance(i.context_expr, ast.Call) and norm(i.context_expr.func) in ("cls", "type(self)", "self.__class__")}
+    copies = f.call_sites("h5_copy_from_to(__s[__k], __t, __k)")
+    ok = bool(copies) and bool(fresh) and all(f.x(b["__s"]) == "self['/']" and any(f.x(b["__t"]) == f"{d}['/']" for d in fresh) for _, c, b in copies)
+    rep.check(ok, "C05.R4", fi.qual, "source root is the overlay view of self, target root the fresh record", fi.loc(), construct="source/target roots", message="merge_files does not copy from self['/'] (overlay view) into ds['/']")
+    fors = [n for n in g.nodes if n.kind == "for"]
+    attr_loop = []
+    for n in fors:
+        st = n.stmt
+        if f.x(st.iter) == "self['/'].attrs.items()" and isinstance(st.target, ast.Tuple) and len(st.target.elts) == 2:
+            k, v = norm(st.target.elts[0]), norm(st.target.elts[1])
+            if any(isinstance(b_, ast.Assign) and any(f.x(t) in {f"{d}['/'].attrs[{k}]" for d in fresh} for t in b_.targets) and norm(b_.value) == v for b_ in st.body) and not any(isinstance(x, (ast.Break, ast.Continue, ast.If)) for b_ in st.body for x in ast.walk(b_)):
+                attr_loop.append(n)
     rep.check(len(attr_loop) == 1, "C05.R4", fi.qual, "root attributes are copied", fi.loc(), construct="root attribute copy", message="merge_files does not copy the root attributes")
-    key_loop = [f for f in fors if norm(f.iter) in ("source_node.keys()", "source_node") and any(isinstance(b, ast.Expr) and norm(b.value) == f"h5_copy_from_to(source_node[{norm(f.target)}], target_node, {norm(f.target)})" for b in f.body)]
-    rep.check(len(key_loop) == 1 and not any(isinstance(x, (ast.Break, ast.Continue, ast.If)) for x in ast.walk(key_loop[0])) if key_loop else False, "C05.R4", fi.qual, "every top-level entity is copied through the overlay", fi.loc(), construct="entity copy loop", message="merge_files does not copy every key of the source root with h5_copy_from_to")
-    h = P.func(f"{O}.h5_copy_from_to")
-    g = ctx.cfg(h)
-    tests = [t for t in g.nodes if t.kind == "test" and norm(t.exprs[0]) == "isinstance(source_node, H5DatasetLike)"]
-    rep.check(len(tests) == 1, "C05.R4", h.qual, "dispatch on dataset vs group", h.loc(), construct="kind dispatch", message="h5_copy_from_to lost its dataset/group dispatch")
-    if len(tests) == 1:
-        t = tests[0]
-        tb = g.reach([b for b, l in g.succ[t.idx] if l == "T"]) | {b for b, l in g.succ[t.idx] if l == "T"}
-        fb = g.reach([b for b, l in g.succ[t.idx] if l == "F"]) | {b for b, l in g.succ[t.idx] if l == "F"}
-        ds_create = [n for n in tb if any(call_attr(c) == "create_dataset" and norm(kwarg(c, "data") or ast.Constant(value=None)) == "source_node[()]" for c in g.calls(n))]
-        ds_attrs = [n for n in tb if any(norm(c.func) == "copy_attrs" and norm(c.args[0]) == "source_node" for c in g.calls(n))]
-        rep.check(bool(ds_create) and bool(ds_attrs), "C05.R4", h.qual, "dataset branch: full value [()] and attributes", h.loc(), construct="dataset branch", message="dataset branch of h5_copy_from_to does not copy `source_node[()]` and the attributes")
-        gr_create = [n for n in fb if any(call_attr(c) == "create_group" for c in g.calls(n))]
-        gr_attrs = [n for n in fb if any(norm(c.func) == "copy_attrs" and norm(c.args[0]) == "source_node" for c in g.calls(n))]
-        # all descendants (unless shallow) reach copy_children: either visited directly with copy_children as callback,
-        # or listed first (helper / snapshot) and then fed to copy_children one by one
-        direct = [n for n in fb if any(call_attr(c) == "visititems" and norm(c.func.value) == "source_node" and c.args and norm(c.args[0]) == "copy_children" for c in g.calls(n))]
-        sh = [tt for tt in g.nodes if tt.kind == "test" and norm(tt.exprs[0]) == "shallow"]
-        ok_direct = bool(direct) and bool(sh) and all(g.edge_dominates(s.idx, "F", r) for s in sh for r in direct)
+    key_loop = []
+    for n in fors:
+        st = n.stmt
+        if f.x(st.iter) in ("self['/'].keys()", "self['/']") and isinstance(st.target, ast.Name):
+            body_ids = {id(x) for b_ in st.body for x in ast.walk(b_)}
+            inl = [c for _, c, b in copies if norm(b["__k"]) == st.target.id and any(id(x) in body_ids for x in [c]) or any(norm(c) == norm(x) for b_ in st.body for x in ast.walk(b_) if isinstance(x, ast.Call))]
+            if inl and not any(isinstance(x, (ast.Break, ast.Continue, ast.If)) for b_ in st.body for x in ast.walk(b_)):
+                key_loop.append(n)
+    rep.check(len(key_loop) == 1, "C05.R4", fi.qual, "every top-level entity is copied through the overlay", fi.loc(), construct="entity copy loop", message="merge_files does not copy every key of the source root with h5_copy_from_to")
+    hfi = P.func(f"{O}.h5_copy_from_to")
+    h = F(ctx, hfi)
+    src, tg, tp = hfi.params[0], hfi.params[1], hfi.params[2]
+    is_ds = h.tests(f"isinstance({src}, H5DatasetLike)")
+    rep.check(bool(is_ds), "C05.R4", hfi.qual, "dispatch on dataset vs group", hfi.loc(), construct="kind dispatch", message="h5_copy_from_to lost its dataset/group dispatch")
+    if is_ds:
+        ds_create = [i for i, c, b in h.call_sites(f"{tg}.create_dataset({tp}, data={src}[()])")]
+        attrs_of_src = [i for i, c, b in h.call_sites(f"copy_attrs({src}, __n)")]
+        ds_attrs = [i for i in attrs_of_src if h.hit_before(i, edges=is_ds)]
+        ok = bool(ds_create) and bool(ds_attrs) and h.all_hit_before(ds_create, edges=is_ds) and all(h.hit_before(h.g.exit, nodes=ds_create + ds_attrs, src_edge=e) for e in is_ds) and all(h.hit_before(a, nodes=ds_create) for a in ds_attrs)
+        rep.check(ok, "C05.R4", hfi.qual, "dataset branch: full value [()] and attributes", hfi.loc(), construct="dataset branch", message="dataset branch of h5_copy_from_to does not copy `source_node[()]` and the attributes")
+        not_ds = h.neg(is_ds)
+        gr_create = [i for i, c, b in h.call_sites(f"{tg}.create_group({tp})")]
+        gr_attrs = [i for i in attrs_of_src if h.hit_before(i, edges=not_ds)]
+        okg = bool(gr_create) and bool(gr_attrs) and h.all_hit_before(gr_create, edges=not_ds) and all(h.hit_before(h.g.exit, nodes=gr_create, src_edge=e) and h.hit_before(h.g.exit, nodes=gr_attrs, src_edge=e) for e in not_ds)
+        # all descendants (unless shallow): listed by _list_children(source, shallow) (or given by the caller), each fed to the child copier
         lister = P.functions.get(f"{O}._list_children")
-        ok_listed = False
+        lister_ok = False
         if lister is not None:
-            lt = norm(lister.node)
-            lister_ok = "if shallow: return list(source_node.items())" in lt.replace("\n", " ") and "source_node.visititems(lambda name, child: ret.append((name, child)))" in lt and "return ret" in lt
-            listed = [n for n in fb if any(norm(c.func) == "_list_children" and [norm(a) for a in c.args] == ["source_node", "shallow"] for c in g.calls(n))]
-            loops = [n for n in fb if g.nodes[n].kind == "for" and norm(g.nodes[n].stmt.iter) == "src_children" and any(isinstance(b, ast.Expr) and norm(b.value) == f"copy_children({', '.join(norm(e) for e in g.nodes[n].stmt.target.elts)})" for b in g.nodes[n].stmt.body if isinstance(g.nodes[n].stmt.target, ast.Tuple))]
-            ok_listed = lister_ok and bool(listed) and bool(loops)
-        ok = bool(gr_create) and bool(gr_attrs) and (ok_direct or ok_listed)
-        rep.check(ok, "C05.R4", h.qual, "group branch: group, attributes and (unless shallow) all descendants", h.loc(), construct="group branch", message="group branch of h5_copy_from_to does not create the group, copy its attributes and copy all descendants (immediate children when shallow)")
-    cc = h.nested.get("copy_children")
-    t = norm(cc.node) if cc else ""
-    ok = "isinstance(src_child, H5DatasetLike)" in t and "trg_root[name] = src_child[()]" in t and "trg_root.create_group(name)" in t and "copy_attrs(src_child, trg_root[name])" in t
-    rep.check(ok, "C05.R4", h.qual, "children: datasets by full value, groups created, attributes copied for both", h.loc(), construct="copy_children", message="copy_children does not handle both kinds (dataset value [()], group) and attributes")
-    ca = h.nested.get("copy_attrs")
-    t = norm(ca.node) if ca else ""
-    ok = "if not without_attrs" in t and "for k, v in src_node.attrs.items()" in t and "trg_atrs[k] = v" in t
-    rep.check(ok, "C05.R4", h.qual, "attributes are copied one by one unless without_attrs", h.loc(), construct="copy_attrs", message="copy_attrs does not copy every attribute (unless without_attrs)")
+            lf = F(ctx, lister)
+            a, sh = lister.params[0], lister.params[1]
+            shallow_t = lf.tests(sh)
+            imm = [i for i, v in lf.returns() if v is not None and lf.x(v) in (f"list({a}.items())", f"[*{a}.items()]")]
+            deep = lf.calls(f"{a}.visititems(___)")
+            full = [i for i, v in lf.returns() if i not in imm]
+            lister_ok = bool(shallow_t) and bool(imm) and bool(deep) and bool(full) and lf.all_hit_before(imm, edges=shallow_t) and lf.all_hit_before(full, nodes=deep) and all(lf.hit_before(lf.g.exit, nodes=imm, src_edge=e) for e in shallow_t)
+            cb = [c.args[0] for _, c, b in lf.call_sites(f"{a}.visititems(__cb)")]
+            lister_ok = lister_ok and all(isinstance(x, ast.Lambda) and len(x.args.args) == 2 and M.match(f"__r.append(({x.args.args[0].arg}, {x.args.args[1].arg}))", x.body) is not None for x in cb)
+        listed = h.call_sites(f"_list_children({src}, __sh)")
+        sh_ok = bool(listed) and all(h.x(b["__sh"]) in ("kwargs.pop('shallow', False)", "shallow") for _, c, b in listed)
+        loops = []
+        for n in h.g.nodes:
+            if n.kind == "for" and isinstance(n.stmt.target, ast.Tuple) and len(n.stmt.target.elts) == 2 and not any(isinstance(x, (ast.Break, ast.Continue)) for b_ in n.stmt.body for x in ast.walk(b_)):
+                itx = h.x(n.stmt.iter)
+                if itx == "kwargs.pop('_src_children', None)" or "_list_children" in itx or isinstance(n.stmt.iter, ast.Name):
+                    loops.append(n)
+        unit_ok = False
+        for n in loops:
+            nm, ch = norm(n.stmt.target.elts[0]), norm(n.stmt.target.elts[1])
+            direct = [b_ for b_ in n.stmt.body if isinstance(b_, ast.Expr) and M.match(f"copy_children({nm}, {ch})", b_.value) is not None]
+            cc = hfi.nested.get("copy_children")
+            if direct and cc is not None:
+                u = F(ctx, cc)
+                unit_ok = _child_unit(u, cc.params[0], cc.params[1], None)
+            else:
+                unit_ok = _child_unit(h, nm, ch, n.idx)
+            if unit_ok:
+                break
+        ok = okg and lister_ok and sh_ok and bool(loops) and all(h.hit_before(h.g.exit, nodes=[l.idx for l in loops], src_edge=e) for e in not_ds)
+        rep.check(ok, "C05.R4", hfi.qual, "group branch: group, attributes and (unless shallow) all descendants", hfi.loc(), construct="group branch", message="group branch of h5_copy_from_to does not create the group, copy its attributes and copy all descendants (immediate children when shallow)")
+        rep.check(unit_ok, "C05.R4", hfi.qual, "children: datasets by full value, groups created, attributes copied for both", hfi.loc(), construct="copy_children", message="copy_children does not handle both kinds (dataset value [()], group) and attributes")
+    ca = hfi.nested.get("copy_attrs")
+    ok = False
+    if ca is not None:
+        c = F(ctx, ca)
+        s_, t_ = ca.params[0], ca.params[1]
+        wo = c.tests("without_attrs", "kwargs.pop('without_attrs', False)")
+        loops = [n for n in c.g.nodes if n.kind == "for" and c.x(n.stmt.iter) == f"{s_}.attrs.items()" and isinstance(n.stmt.target, ast.Tuple) and len(n.stmt.target.elts) == 2]
+        if loops and wo:
+            n = loops[0]
+            k, v = norm(n.stmt.target.elts[0]), norm(n.stmt.target.elts[1])
+            st = [b_ for b_ in n.stmt.body if isinstance(b_, ast.Assign) and any(c.x(t) == f"{t_}.attrs[{k}]" for t in b_.targets) and norm(b_.value) == v]
+            ok = bool(st) and not any(isinstance(x, (ast.Break, ast.Continue, ast.If)) for b_ in n.stmt.body for x in ast.walk(b_)) and c.hit_before(c.g.exit, nodes=[n.idx], edges=wo)
+    rep.check(ok, "C05.R4", hfi.qual, "attributes are copied one by one unless without_attrs", hfi.loc(), construct="copy_attrs", message="copy_attrs does not copy every attribute (unless without_attrs)")
+
+
+def _child_unit(u: "F", nm: str, ch: str, loop: int) -> bool:
+    """Per child (name nm, node ch): dataset -> root[nm] = ch[()], else root.create_group(nm); attributes copied for both."""
+    is_ds = u.tests(f"isinstance({ch}, H5DatasetLike)")
+    if not is_ds:
+        return False
+    val = [(i, b) for i, v, b in u.stores(f"__r[{nm}]") if u.x(v) == f"{ch}[()]"] + [(i, b) for i, c, b in u.call_sites(f"__r.create_dataset({nm}, data={ch}[()])")]
+    grp = [(i, b) for i, c, b in u.call_sites(f"__r.create_group({nm})")]
+    att = [(i, b) for i, c, b in u.call_sites(f"copy_attrs({ch}, __r[{nm}])")]
+    if not (val and grp and att):
+        return False
+    roots = {u.x(b["__r"]) for i, b in val + grp + att}
+    end = loop if loop is not None else u.g.exit
+    vi, gi, ai = [i for i, b in val], [i for i, b in grp], [i for i, b in att]
+    return (len(roots) == 1 and u.all_hit_before(vi, edges=is_ds) and u.all_hit_before(gi, edges=u.neg(is_ds))
+            and all(u.hit_before(end, nodes=vi, src_edge=e) for e in is_ds) and all(u.hit_before(end, nodes=gi, src_edge=e) for e in u.neg(is_ds))
+            and all(u.hit_before(end, nodes=ai, src_edge=e) for e in is_ds + u.neg(is_ds)) and all(u.hit_before(a, nodes=vi + gi, src=(loop if loop is not None else None)) for a in ai))
